@@ -11,11 +11,14 @@
 // objects (occupied / empty slot) is refused with {"skipped":true}, which the
 // trace specification accepts only if its own guard is false as well.
 //
+// Every destruction is an action of the history (DestroyObservable,
+// DestroyObserver, Teardown{order} = everything alive, observers first or
+// observables first), so a crash is attributed to the step that caused it.
+// Objects still alive when the history ends are deliberately not destroyed.
+//
 // input line keys besides "h": "nw" (observer slots, for PollAll), "variant"
 // ("plain": stand-alone objects; "derived": Observable as a base class and the
-// Observer as a member, the two uses Observer.h describes), "teardown" (order in
-// which objects still alive at the end of the history are destroyed:
-// "observers_first" | "observables_first").
+// Observer as a member, the two uses Observer.h describes).
 #include <memory>
 #include <string>
 #include <vector>
@@ -48,7 +51,6 @@ struct World
   static const int MAXS = 8;
   int nw{3};
   bool derived{false};
-  bool observablesFirst{false};
   Observable *subj[MAXS + 1];
   Observer *plainObs[MAXS + 1];
   Holder *holder[MAXS + 1];
@@ -59,7 +61,6 @@ struct World
     if (hist.has("nw")) nw = (int)hist["nw"].num();
     if (nw > MAXS) nw = MAXS;
     derived = hist.has("variant") && hist["variant"].str() == "derived";
-    observablesFirst = hist.has("teardown") && hist["teardown"].str() == "observables_first";
   }
 
   bool watcherAlive(int b) const { return plainObs[b] != nullptr || holder[b] != nullptr; }
@@ -77,15 +78,13 @@ struct World
     subj[o] = nullptr;
   }
 
-  ~World()
+  ~World() {}   // what is left alive is leaked on purpose: destructions are actions of the history
+
+  bool anythingAlive() const
   {
-    if (observablesFirst) {
-      for (int o = 1; o <= MAXS; ++o) if (subj[o]) destroySubject(o);
-      for (int b = MAXS; b >= 1; --b) if (watcherAlive(b)) destroyWatcher(b);
-    } else {
-      for (int b = 1; b <= MAXS; ++b) if (watcherAlive(b)) destroyWatcher(b);
-      for (int o = MAXS; o >= 1; --o) if (subj[o]) destroySubject(o);
-    }
+    for (int i = 1; i <= MAXS; ++i)
+      if (subj[i] || watcherAlive(i)) return true;
+    return false;
   }
 
   static Json skipped()
@@ -141,6 +140,14 @@ struct World
       long long b = arg["b"].num();
       if (!slotOk(b) || !watcherAlive((int)b)) return skipped();
       destroyWatcher((int)b);
+      out.set("ret", "void");
+    } else if (a == "Teardown") {
+      const std::string &order = arg["order"].str();
+      if ((order != "observers_first" && order != "observables_first") || !anythingAlive()) return skipped();
+      if (order == "observables_first")
+        for (int o = 1; o <= MAXS; ++o) if (subj[o]) destroySubject(o);
+      for (int b = 1; b <= MAXS; ++b) if (watcherAlive(b)) destroyWatcher(b);
+      for (int o = 1; o <= MAXS; ++o) if (subj[o]) destroySubject(o);
       out.set("ret", "void");
     } else {
       out.set("ret", "unknown-action");
